@@ -266,7 +266,8 @@ def r17_3(ctx: Ctx, only=None):
     methods = methods + config_methods
     for q in methods:
         selfv = var(q.param_names[0])
-        Nfield = attr(selfv, 'numberOfFloatVariables')
+        from . import evo as _evo2
+        Nfield = attr(selfv, _evo2.evo_of(ctx).dim_field)
         n1 = Lit.cmp('==', Nfield, RF.const(1))
         for p in ex.explore(q):
             if p.outcome == 'raise':
